@@ -55,6 +55,8 @@ class Ctx:
         self.tier = tier
         self.prop = prop
         self.repo = Repo(root)
+        from .fields import canonicalise_fields
+        self.field_renames = canonicalise_fields(self.repo)
         self.inlined = inline_fresh_helpers(self.repo)
         resolve_aliases(self.repo)
         self.hier = Hierarchy(self.repo)
